@@ -106,11 +106,19 @@ def hyp_search(strategy, body, acc: Acc, *, seed: int, max_examples: int,
         state = {"fail": None, "t_first": None}
 
         def run_one(case):
+            if state["t_first"] is not None and time.monotonic() - state["t_first"] > shrink_budget_s:
+                return  # shrink budget used up: do not even run further candidates (a hanging one costs minutes)
             v = None
             try:
-                v = body(case, acc)
+                with deadline(CASE_LIMIT_S):
+                    v = body(case, acc)
             except Violation as exc:
                 v = exc
+            except FramesChanged as exc:
+                v = Violation(f"{CURRENT_PROP}:frames-changed-after-yield", str(exc), case)
+            except Hang:
+                # the library did not come back within minutes on one small generated case
+                v = Violation(f"{CURRENT_PROP}:hang", f"a call into the library did not return within {CASE_LIMIT_S:.0f} s", case)
             if v is None:
                 return
             if v.case is None:
@@ -188,6 +196,9 @@ def _worker(args):
     try:
         env.setup()
         mod = importlib.import_module(modname)
+        global CURRENT_PROP
+        CURRENT_PROP = getattr(mod, "ID", CURRENT_PROP)
+        guard_module(mod)
         acc = mod.run_shard(spec)
         return ("ok", acc.to_json())
     except HarnessError as exc:
@@ -218,6 +229,11 @@ class Hang(BaseException):
     """Raised by deadline(): the code under test did not come back (BaseException: not swallowed by 'except Exception')."""
 
 
+class FramesChanged(BaseException):
+    """A frame object handed out by a frame generator was modified while later frames were produced (raised by
+    pyj.frames_to_bytes; BaseException so that 'the writer refused' handlers do not take it for a refusal)."""
+
+
 @contextlib.contextmanager
 def deadline(seconds: float):
     """Bound a call into the library by wall-clock time (SIGALRM; main thread of a worker process). Used where the
@@ -228,12 +244,25 @@ def deadline(seconds: float):
         raise Hang()
 
     old = signal.signal(signal.SIGALRM, on_alarm)
-    signal.setitimer(signal.ITIMER_REAL, seconds)
+    expiry = time.monotonic() + seconds
+    if _DEADLINES:
+        expiry = min(expiry, _DEADLINES[-1])  # never outlive an enclosing deadline
+    _DEADLINES.append(expiry)
+    signal.setitimer(signal.ITIMER_REAL, max(expiry - time.monotonic(), 0.001))
     try:
         yield
     finally:
-        signal.setitimer(signal.ITIMER_REAL, 0)
+        _DEADLINES.pop()
+        if _DEADLINES:  # re-arm the enclosing deadline
+            signal.setitimer(signal.ITIMER_REAL, max(_DEADLINES[-1] - time.monotonic(), 0.001))
+        else:
+            signal.setitimer(signal.ITIMER_REAL, 0)
         signal.signal(signal.SIGALRM, old)
+
+
+_DEADLINES: list = []
+CURRENT_PROP = "C??"
+CASE_LIMIT_S = 120.0
 
 
 # --------------------------------------------------------------------------- main
@@ -257,7 +286,27 @@ def committed_replays(prop_id: str) -> list[str]:
     return sorted(os.path.join(d, f) for f in os.listdir(d) if f.endswith(".json"))
 
 
+def guard_module(mod):
+    """Wrap the module's body(): harness signals raised underneath it (a reused frame object, a hang) become violations
+    of the property being checked, whichever part of the module called body()."""
+    orig = getattr(mod, "body", None)
+    if orig is None or getattr(orig, "_guarded", False):
+        return mod
+    pid = getattr(mod, "ID", CURRENT_PROP)
+
+    def body(case, acc=None):
+        try:
+            return orig(case, acc)
+        except FramesChanged as exc:
+            return Violation(f"{pid}:frames-changed-after-yield", str(exc), case)
+
+    body._guarded = True
+    mod.body = body
+    return mod
+
+
 def run_replay_file(mod, path: str):
+    guard_module(mod)
     with open(path, encoding="utf-8") as fh:
         rec = json.load(fh)
     try:
